@@ -509,8 +509,9 @@ class RepeatMax(Expression):
         matched = self.expression.parse(state, accumulator)
 
         if not matched:
+            # Zero matches are allowed.
             state.restore()
-            return False
+            return True
 
         match_count += 1
 
